@@ -450,7 +450,16 @@ def run(chk, repo, tier):
     pc = repo.cls('pharmpy.model.parameters.Parameter').methods.get('create')
     if pc is None:
         raise AnalysisError('Parameter.create not found')
-    cfg = CFG(pc.node)
+    # a helper expanded by sa/inline.py keeps its parameters under `<name>__<helper>`: the same quantities
+    import copy as _copy
+    import re as _re_
+
+    class _Strip(ast.NodeTransformer):
+        def visit_Name(self, n_):
+            return ast.copy_location(ast.Name(id=_re_.sub(r'__\w+$', '', n_.id), ctx=n_.ctx), n_)
+    pcn = _Strip().visit(_copy.deepcopy(pc.node))
+    ast.fix_missing_locations(pcn)
+    cfg = CFG(pcn)
     rets = [n for n in cfg.nodes.values() if n.kind == 'return']
     guards = []
     for t in [n for n in cfg.nodes.values() if n.kind == 'test']:
